@@ -8,6 +8,7 @@ import (
 	"go/token"
 	"go/types"
 	"path/filepath"
+	"sort"
 	"strings"
 )
 
@@ -37,6 +38,7 @@ type dbLockWalker struct {
 	methods map[string]*ast.FuncDecl
 	recv    map[string]string // method -> receiver name
 	note    []string
+	nested  bool // walk the path taken when the method is called from INSIDE a transaction (ctx.Tx() != nil)
 }
 
 type dbFrame struct {
@@ -271,7 +273,7 @@ func (w *dbLockWalker) stmt(f *dbFrame, st ast.Stmt) {
 		}
 		w.expr(f, s.Cond)
 		if terminates(s.Body) {
-			if exprText(s.Cond) == "ctx.Tx() == nil" {
+			if exprText(s.Cond) == "ctx.Tx() == nil" && !(w.nested && f.depth == 0) {
 				w.block(f, s.Body) // the top-level-transaction path; its return ends the function
 			}
 			return
@@ -294,6 +296,8 @@ func extractDbLocks(repo, gen, facts string) {
 	file, err := parser.ParseFile(fset, filepath.Join(repo, "boltz", "db.go"), nil, 0)
 	w := &dbLockWalker{methods: map[string]*ast.FuncDecl{}, recv: map[string]string{}}
 	res := map[string][]string{}
+	inTx := map[string][]string{}
+	var allNames []string
 	var fields [][2]string
 	pkgVars := []string{}
 	if err != nil {
@@ -343,7 +347,20 @@ func extractDbLocks(repo, gen, facts string) {
 				w.recv[fd.Name.Name] = fd.Recv.List[0].Names[0].Name
 			}
 		}
-		for _, name := range dbLockEntryPoints {
+		// the fixed entry points first (the obligations name them), then every other exported method
+		var others []string
+		for name := range w.methods {
+			known := false
+			for _, k := range dbLockEntryPoints {
+				known = known || k == name
+			}
+			if !known && ast.IsExported(name) {
+				others = append(others, name)
+			}
+		}
+		sort.Strings(others)
+		allNames = append(append([]string{}, dbLockEntryPoints...), others...)
+		for _, name := range allNames {
 			m, ok := w.methods[name]
 			if !ok {
 				w.note = append(w.note, "missing method "+name)
@@ -355,17 +372,28 @@ func extractDbLocks(repo, gen, facts string) {
 			w.block(f, m.Body)
 			w.finish(f)
 			res[name] = out
+			// the same method on the path taken when it is called from inside a transaction
+			var outN []string
+			w.nested = true
+			fn := &dbFrame{recv: w.recv[name], bind: map[string]ast.Expr{}, bindEnv: map[string]*dbFrame{}, out: &outN}
+			w.block(fn, m.Body)
+			w.finish(fn)
+			w.nested = false
+			inTx[name] = outN
 		}
 	}
+	inTxApis := dbInTxApis(repo, w.methods, &w.note)
 	metaOps := dbMetaOps(w.methods)
 	type fact struct {
 		Programs map[string][]string     `json:"programs"`
+		InTx     map[string][]string     `json:"in_tx_programs"`
+		InTxApis [][2]string             `json:"in_tx_apis"`
 		Fields   [][2]string             `json:"dbimpl_fields"`
 		PkgVars  []string                `json:"db_go_package_vars"`
 		MetaOps  map[string][]dbMetaStep `json:"meta_ops"`
 		Notes    []string                `json:"notes,omitempty"`
 	}
-	js, _ := json.MarshalIndent(fact{res, fields, pkgVars, metaOps, w.note}, "", " ")
+	js, _ := json.MarshalIndent(fact{res, inTx, inTxApis, fields, pkgVars, metaOps, w.note}, "", " ")
 	writeIfChanged(filepath.Join(facts, "dblocks.json"), string(js)+"\n")
 
 	var b strings.Builder
@@ -373,21 +401,36 @@ func extractDbLocks(repo, gen, facts string) {
 	b.WriteString("/- GENERATED by /verif/extract from boltz/db.go (DbImpl lock/handle events per entry point) — do not edit. -/\n")
 	b.WriteString("namespace StorageModel.Generated\nopen StorageModel.C17\n")
 	b.WriteString("def dbLockPrograms : List (String × List LockEv) := [\n")
-	first := true
-	for _, name := range dbLockEntryPoints {
-		evs, ok := res[name]
-		if !ok {
-			continue
+	writeTable := func(t map[string][]string) {
+		first := true
+		for _, name := range allNames {
+			evs, ok := t[name]
+			if !ok {
+				continue
+			}
+			if !first {
+				b.WriteString(",\n")
+			}
+			first = false
+			parts := []string{}
+			for _, e := range evs {
+				parts = append(parts, "."+e)
+			}
+			fmt.Fprintf(&b, "  (%q, [%s])", name, strings.Join(parts, ", "))
 		}
-		if !first {
-			b.WriteString(",\n")
+		b.WriteString("]\n")
+	}
+	writeTable(res)
+	b.WriteString("/-- the same methods on the path taken when they are called from INSIDE a transaction (`ctx.Tx() != nil`) -/\n")
+	b.WriteString("def dbInTxPrograms : List (String × List LockEv) := [\n")
+	writeTable(inTx)
+	b.WriteString("/-- the methods a transaction body calls: those that take the transaction (`*bbolt.Tx` / `MutateContext` parameter) and\n    those the repository itself calls inside a function passed to Update / View / Batch (name, why) -/\n")
+	b.WriteString("def dbInTxApis : List (String × String) := [")
+	for i, a := range inTxApis {
+		if i > 0 {
+			b.WriteString(", ")
 		}
-		first = false
-		parts := []string{}
-		for _, e := range evs {
-			parts = append(parts, "."+e)
-		}
-		fmt.Fprintf(&b, "  (%q, [%s])", name, strings.Join(parts, ", "))
+		fmt.Fprintf(&b, "(%q, %q)", a[0], a[1])
 	}
 	b.WriteString("]\n")
 	b.WriteString("/-- the fields of `type DbImpl struct` (name, type) -/\n")
